@@ -283,4 +283,11 @@ def boundary_cases():
     big[root[:-1] + (2**32 - 1, 1)] = ("int", 0)
     out.append(("arc-boundaries", [root], big))
     out.append(("arc-boundary-roots", [root + (2**32 - 1,), root + (127,), root + (128,), root + (2**31,)], big))
+    x = (1, 3, 6, 1, 4, 1, 12)
+    sib = {}
+    for a in (1, 10, 11, 12, 19, 2, 20, 21, 100, 3):
+        sib[x + (a, 1)] = ("int", a)
+        sib[x + (a, 2, 0)] = ("int", -a)
+    out.append(("decimal-prefix-sibling-roots", [x + (1,), x + (11,), x + (2,), x + (21,), x + (10,), x + (100,)], sib))
+    out.append(("decimal-prefix-sibling-roots-2", [x + (11,), x + (1,)], sib))
     return out
